@@ -81,14 +81,27 @@ impl GCase {
         for n in &self.names {
             g.add_node(Node::from_name(n.clone()));
         }
+        // identical edges are handed over as clones of one Arc (as `vec![edge; k]` would)
+        let mut arcs: std::collections::HashMap<(usize, usize, u64), Arc<Edge<String, ()>>> = std::collections::HashMap::new();
         for (u, v, w) in &self.edges {
-            let e: Arc<Edge<String, ()>> = Arc::new(Edge {
-                u: self.names[*u].clone(),
-                v: self.names[*v].clone(),
-                attributes: None,
-                weight: *w,
-            });
+            let e = arcs
+                .entry((*u, *v, w.to_bits()))
+                .or_insert_with(|| {
+                    Arc::new(Edge {
+                        u: self.names[*u].clone(),
+                        v: self.names[*v].clone(),
+                        attributes: None,
+                        weight: *w,
+                    })
+                })
+                .clone();
             g.add_edge(e).expect("permissive specs never reject an edge");
+        }
+        // a node re-add (an attribute update) after the edges exist must change nothing
+        for (i, n) in self.names.iter().enumerate() {
+            if i % 3 == 1 {
+                g.add_node(Node::from_name(n.clone()));
+            }
         }
         g
     }
@@ -420,7 +433,7 @@ pub fn boundary_case(rng: &mut Rng, nmin: usize, nmax: usize, kinds: &[Specs], w
             // a hub with a neighbour count around 64 / 128
             let deg = *rng.pick(&[63usize, 64, 65, 127, 128, 129]);
             let deg = deg.min(nmax.saturating_sub(1)).max(1);
-            let n = deg + 1 + rng.below(3).min(nmax - deg - 1);
+            let n = deg + 1 + rng.range(0, 5).min(nmax - deg - 1);
             let names = scrambled_names(n, rng);
             let hub = rng.below(n);
             let fan_in = rng.chance(1, 3); // every arc points at the hub
@@ -434,6 +447,19 @@ pub fn boundary_case(rng: &mut Rng, nmin: usize, nmax: usize, kinds: &[Specs], w
                         edges.push((hub, v, wclass.draw(rng)));
                     }
                     k += 1;
+                }
+            }
+            // the nodes beyond the fan hang off random fan members (second BFS level)
+            let others: Vec<usize> = (0..n).filter(|v| *v != hub && !edges.iter().any(|e| e.0 == *v || e.1 == *v)).collect();
+            let members: Vec<usize> = edges.iter().map(|e| if e.0 == hub { e.1 } else { e.0 }).collect();
+            for o in others {
+                for _ in 0..rng.range(1, 2) {
+                    let m = members[rng.below(members.len())];
+                    if rng.coin() {
+                        edges.push((o, m, wclass.draw(rng)));
+                    } else {
+                        edges.push((m, o, wclass.draw(rng)));
+                    }
                 }
             }
             for _ in 0..rng.below(6) {
